@@ -53,7 +53,8 @@ def gen_helper_cases(rng, R: L.Real, n: int, stats: Counter):
         else:
             mb = L.gen_oshape(rng)
         add("merge", f"merge {L.enc_shape(ma)} {L.enc_shape(mb)}", lambda a=ma, b=mb: R.merge(a, b))
-        add("evIdentity", f"evIdentity {L.enc_shape(ma)} {L.enc_shape(mb)}", lambda a=ma, b=mb: R.ev_identity(a, b))
+        gi_ = rng.random() < 0.3
+        add("evIdentity", f"evIdentity {1 if gi_ else 0} {L.enc_shape(ma)} {L.enc_shape(mb)}", lambda a=ma, b=mb, g=gi_: R.ev_identity(a, b, g))
         # broadcast
         x, y = _pair(rng)
         add("bcastShape", f"bcastShape {L.enc_shape(x)} {L.enc_shape(y)}", lambda a=x, b=y: R.bcast_shape(a, b))
